@@ -38,6 +38,9 @@ func TestMain(m *testing.M) {
 	case "bombchild":
 		vfBombChild()
 		os.Exit(0)
+	case "hugechild":
+		vfHugeChild()
+		os.Exit(0)
 	case "gen":
 		seed, _ := strconv.ParseInt(os.Getenv("VERIF_SEED"), 10, 64)
 		tier := os.Getenv("VERIF_TIER")
